@@ -74,12 +74,12 @@ PROPS = {
             {"sub": "faults", "quick": {"cases": 40}, "thorough": {"cases": 400, "max-txs": 9}, "timeout": 7000},
             WITNESS,
         ],
-        "rule": "for each generated block: every database key touched by the in-order run or by a speculative grevm run x {persistent, fail-once} is injected into the pre-state database; oracle = in-order revm on the same faulty database; persistent: equal status/outcomes/bundle (or the fault is avoided and the fault-free result is produced); fail-once: absorbed (fault-free result) or reported as that fault with the exact in-order prefix of outcomes and state; plus the deterministic witnesses F2/F5 under directed schedules",
+        "rule": "for each generated block: every database key touched by the in-order run, by a speculative grevm run or by grevm's sequential path x {persistent, fail-once} is injected into the pre-state database; each fault point runs on the parallel path (free and under a random controller schedule) and on the sequential path (force_sequential); oracle = in-order revm on the same faulty database with the fee recipient loaded up front; persistent: equal status/outcomes/bundle (or the fault is avoided and the fault-free result is produced); fail-once: absorbed (fault-free result) or reported as that fault with the exact in-order prefix of outcomes and state; plus the deterministic witnesses F2/F5 under directed schedules and F8 (fee-recipient fault on the three sequential entry paths and the parallel path)",
         "trusted_base": E2E_TRUST,
         "modelled": ["post_execute abort-reason mapping", "execute_sequential_suffix prefix preservation", "error branch of execute_task"],
         "assumptions": ["fault injection wraps DatabaseRef of the pre-state only"],
         "partial": ["error_branch_start_partial: the decision logic; that an attempt started at the commit head reads only final state is the pipeline theorem (C02)"],
-        "explanation": "Theorems replay_error_prefix, post_execute_returns, error_branch_start_partial, head_attempt_is_in_order, fatal_only_if_in_order_fatal (a fatal abort is raised only when in-order execution of that transaction is fatal), f7_unchecked_head_attempt_violates; fault enumeration against the oracle; findings F2, F4, F5, F7 repaired (F2/F5 witnesses run every time).",
+        "explanation": "Theorems replay_error_prefix, post_execute_returns, error_branch_start_partial, head_attempt_is_in_order, fatal_only_if_in_order_fatal (a fatal abort is raised only when in-order execution of that transaction is fatal), f7_unchecked_head_attempt_violates; fault enumeration against the oracle; findings F2, F4, F5, F7, F8 repaired (F2/F5/F8 witnesses run every time).",
     },
     "C05": {
         "lean_modules": ["Props.C05", "Props.C16", "Props.C17", "Props.C15"],
@@ -99,8 +99,12 @@ PROPS = {
     },
     "C06": {
         "lean_modules": ["Props.C06"],
-        "harness": [e2e("mixed,lifecycle,code,invalid,precompile", 200, 3000, configs="w1,w2,w4,seq,fallback,minpar,mineq", schedules=1, label="config-matrix")],
-        "rule": E2E_RULE + "; configurations: workers 1,2,4; min_parallel_txs 0, n, n+1; force_sequential; fallback_sequential() entry point — all compared with the same in-order oracle result",
+        "harness": [
+            e2e("mixed,lifecycle,code,invalid,precompile", 200, 3000, configs="w1,w2,w4,seq,fallback,minpar,mineq", schedules=1, label="config-matrix"),
+            e2e("delegated", 150, 3000, configs="w1,w2,w4,seq,fallback,minpar,mineq", schedules=1, label="policy-config-matrix"),
+            {"sub": "reserve", "quick": {"cases": 2000}, "thorough": {"cases": 50000}, "timeout": 3000},
+        ],
+        "rule": E2E_RULE + "; configurations: workers 1,2,4; min_parallel_txs 0, n, n+1; force_sequential; fallback_sequential() entry point — all compared with the same in-order oracle result; policy-config-matrix: the delegated family with the CREATE guard / balance reserve on and off under the same configurations (reserve-on blocks: reference = the sequential path, every parallel configuration and schedule must equal it); reserve-differential: the shared ReservePlanner answers (txid, address) queries issued in random order with repetitions exactly as the pure function Model/Reserve.requiredAfter does — an answer that depends on which queries came before (i.e. on the speculative execution order) is a disagreement",
         "trusted_base": E2E_TRUST,
         "modelled": ["path selection in parallel_execute_inner"],
         "assumptions": ["both paths compute the in-order result (C01-C04)"],
@@ -111,9 +115,9 @@ PROPS = {
         "harness": [
             {"sub": "history", "quick": {"cases": 1500}, "thorough": {"cases": 60000}, "timeout": 3000},
             {"sub": "reward", "quick": {"cases": 5000}, "thorough": {"cases": 200000}, "timeout": 3000},
-            e2e("mixed,precompile", 60, 1500, label="beneficiary-roles"),
+            e2e("mixed,precompile,lifecycle", 90, 1500, label="beneficiary-roles"),
         ],
-        "rule": "history: random op sequences (record reward/unchanged/snapshot/estimate, invalidate, resolve, validate of remembered chains; incarnations 0..3 so stale ones occur) on the real BeneficiaryHistory vs Model/History.lean, result by result; reward: (spec, fees, gas, reservoir) tuples: grevm from_gas vs revm reward_beneficiary vs Lean rewardAmount; e2e: beneficiary absent / EOA / near-overflow / contract with storage / sender, zero and non-zero priority fees",
+        "rule": "history: random op sequences (record reward/unchanged/snapshot/estimate, invalidate, resolve, validate of remembered chains; incarnations 0..3 so stale ones occur) on the real BeneficiaryHistory vs Model/History.lean, result by result; reward: (spec, fees, gas, reservoir) tuples: grevm from_gas vs revm reward_beneficiary vs Lean rewardAmount; e2e: beneficiary absent / EOA / near-overflow / contract with storage / sender / a contract destroyed (and re-created) in the block while later transactions keep paying it, zero and non-zero priority fees",
         "trusted_base": E2E_TRUST,
         "modelled": ["BeneficiaryHistory record/invalidate/scan_before/resolve/validate", "DeferredBeneficiaryReward::apply_to", "BeneficiaryReward::from_gas and the defer decision"],
         "assumptions": ["fee-disabled mode (optional_fee_charge feature) is not generated"],
@@ -144,12 +148,12 @@ PROPS = {
             {"sub": "cache-race", "quick": {"cases": 1000}, "thorough": {"cases": 60000}, "timeout": 3000},
             e2e("lifecycle,mixed,code", 90, 3000, label="bundle"),
         ],
-        "rule": "cache-history: random histories over 4 accounts x 3 slots x 4 codes on one ParallelState and one revm State (same backing store): commits of realistic finalized journal states (selfdestruct incl. created+destroyed, CREATE over absent / destroyed / balance-only accounts with constructor storage, EIP-161 empty touch, updates with SSTOREs whose original value is the current one, code changes), increment_balances (non-zero amounts, distinct addresses: the documented precondition), drain_balances, merge_transitions (Reverts / PlainState), take_bundle or parallel_take_bundle per block or accumulated over 1-3 consecutive blocks on the same state; after EVERY operation the pending transitions are compared (canonical rendering), after every third and after every block all accounts, codes and slots readable through the database interface, after every extraction state, contracts, reverts; cache-race: 1-3 reader threads (cache-filling storage_ref through the worker view) against 1-3 ordered commits (destroy / create / empty-touch / update) of one account under random / PCT / sticky controller schedules and the directed F1 schedule (reader held between database fetch and cache insert while the account is destroyed); afterwards all reads must equal revm State's after the same commits, and the totally ordered hook-event trace (cache_read_begin, cache_fill_storage with the status the reader saw, cache_commit_begin, cache_set_status, cache_clear_storage, cache_write_slots) is replayed through the PROVEN Cache.step (one model state per slot): every event must be enabled, the values returned to readers and the values served at the end must equal the model's, and the model's served values its logical ones; e2e (bundle): " + E2E_RULE,
+        "rule": "cache-history: random histories over 4 accounts x 3 slots x 4 codes on one ParallelState and one revm State (same backing store): commits of realistic finalized journal states (selfdestruct incl. created+destroyed, CREATE over absent / destroyed / balance-only accounts with constructor storage, EIP-161 empty touch, updates with SSTOREs whose original value is the current one, code changes), increment_balances (non-zero amounts, distinct addresses: the documented precondition), drain_balances, merge_transitions (Reverts / PlainState), take_bundle or parallel_take_bundle per block or accumulated over 1-3 consecutive blocks on the same state; after EVERY operation the pending transitions are compared (canonical rendering), after every third and after every block all accounts, codes and slots readable through the database interface, after every extraction state, contracts, reverts; cache-race (account cases, every fourth): the account is not cached; 1-3 reader threads load it through the worker view (database fetch, hook point cache_fill_basic, publication of the fetched entry) while 1-3 ordered commits change it, under random / PCT / sticky schedules and a directed one (reader held between fetch and publication until all commits are applied); every reader must return the value of some committed prefix, and afterwards all reads must equal revm State's (Lean: account_fill_coherent over all interleavings of publish / commit; blind_publish_violates); cache-race (storage cases): 1-3 reader threads (cache-filling storage_ref through the worker view) against 1-3 ordered commits (destroy / create / empty-touch / update) of one account under random / PCT / sticky controller schedules and the directed F1 schedule (reader held between database fetch and cache insert while the account is destroyed); afterwards all reads must equal revm State's after the same commits, and the totally ordered hook-event trace (cache_read_begin, cache_fill_storage with the status the reader saw, cache_commit_begin, cache_set_status, cache_clear_storage, cache_write_slots) is replayed through the PROVEN Cache.step (one model state per slot): every event must be enabled, the values returned to readers and the values served at the end must equal the model's, and the model's served values its logical ones; e2e (bundle): " + E2E_RULE,
         "trusted_base": E2E_TRUST,
-        "modelled": ["ParallelStateView::db_storage (hit / status read + fetch / guarded insert-if-absent with status re-check) and the order status-update -> storage.remove -> update_storage_slot of ParallelCacheState::apply_account_state as Model/Cache.lean, per (address, slot)", "the account/storage lifecycle (destroy, create, update) as in Model/Repr.lean (commitL)"],
+        "modelled": ["ParallelStateView::db_basic (miss, database fetch, insert-if-absent) against commits of the account as Model/AccountFill.lean", "ParallelStateView::db_storage (hit / status read + fetch / guarded insert-if-absent with status re-check) and the order status-update -> storage.remove -> update_storage_slot of ParallelCacheState::apply_account_state as Model/Cache.lean, per (address, slot)", "the account/storage lifecycle (destroy, create, update) as in Model/Repr.lean (commitL)"],
         "assumptions": ["DashMap shard guards give mutual exclusion between the guarded insert and storage.remove (one critical section = one model action)", "an account without nonce and code has no storage in the backing store (revm's own assumption when it marks such an account in-memory)", "the CacheAccountInfo status machine, the bundle builder (bundle.rs) and balance increments/drains are NOT modelled in Lean: they are decided by the history differential against revm's State only"],
-        "partial": ["status state machine, transitions, bundle/revert construction: differential only (no theorem)", "account and code cache fills (insert-if-absent without a clearing counterpart) are not modelled"],
-        "explanation": "Theorems cache_coherent / cache_entry_current (for any number of readers, any history of destroy / create / update commits and any interleaving, whenever no commit is in progress the cache serves exactly what revm's State serves; nothing a reader left behind is stale) and f1_original_order_violates (the original order of finding F1 is refuted in the model). Findings F1 and F6 repaired (known_findings.json).",
+        "partial": ["status state machine, transitions, bundle/revert construction: differential only (no theorem)", "account fills are modelled abstractly (Model/AccountFill.lean: publish = insert-if-absent of the immutable database value, commit = overwrite) and tied by the account cases of cache-race (final state vs revm State, returned values vs committed prefixes), not by trace replay; code cache fills (insert-if-absent of immutable bytecode keyed by its hash) are not modelled"],
+        "explanation": "Theorems cache_coherent / cache_entry_current (for any number of readers, any history of destroy / create / update commits and any interleaving, whenever no commit is in progress the cache serves exactly what revm's State serves; nothing a reader left behind is stale) and f1_original_order_violates (the original order of finding F1 is refuted in the model); account_fill_coherent (any interleaving of account-filling reads with commits leaves the committed account in the cache) and blind_publish_violates. Findings F1 and F6 repaired (known_findings.json).",
     },
     "C11": {
         "lean_modules": ["Props.C11"],
